@@ -7,7 +7,7 @@ import math
 from collections import Counter
 
 from . import refmodel as ref
-from . import wl_assemble, wl_call, wl_ped
+from . import wl_assemble, wl_call, wl_cli, wl_ped
 from .core import Violation
 from .engine_k import bootstrap
 
@@ -22,17 +22,18 @@ MIN_WALL = 240.0
 TOL = 1e-12
 
 RULE = (
-    "one evaluation = one simulated sampler run (assemble, call or pedigree; 1-3 chains, different start states, hot / flat posteriors, row-order perturbation) whose "
+    "one evaluation = one simulated sampler run (assemble, call or pedigree, or 4% `mchap assemble` end to end; 1-3 chains, different start states, hot / flat posteriors, row-order perturbation) whose "
     "trace summaries are compared, for every burn-in length, with the same functionals computed from the simulator's own event log; "
     "distinct_nontrivial = distinct (workload, ploidy, chains, burn-in, empirical distribution) tuples in which the retained log held at least two distinct genotypes"
 )
 FAULT_KEYS = ["row_permute", "adversarial_choice", "shuffle", "exchange_accepted"]
 PROBE_KEYS = ["long_allele_traces", "long_locus_traces", "summaries_checked", "burn_values", "multi_genotype_logs", "mode_ties", "support_ties", "incongruence_checked", "incongruence_1", "incongruence_2",
-              "incongruence_tie_skip", "as_array_checked", "ped_individuals", "chains_disagree"]
+              "incongruence_tie_skip", "as_array_checked", "ped_individuals", "chains_disagree", "cli_reports_checked", "cli_null_alleles"]
 OPTIONAL_PROBES = {"quick": (), "thorough": ()}
 COMPONENTS = {
     "real": ["mchap.assemble.classes.{GenotypeMultiTrace,PosteriorGenotypeDistribution,GenotypeSupportDistribution}", "mchap.calling.classes.{GenotypeAllelesMultiTrace,PosteriorGenotypeAllelesDistribution}",
-             "mchap.pedigree.classes.PedigreeAllelesMultiTrace", "mchap.mset", "mchap.calling.utils.posterior_as_array", "the three samplers producing the traces (interpreted)"],
+             "mchap.pedigree.classes.PedigreeAllelesMultiTrace", "mchap.mset", "mchap.calling.utils.posterior_as_array", "the three samplers producing the traces (interpreted)",
+             "cli workload: mchap.application.assemble.program end to end (GT / GPM / SPM of the printed record vs the trace its sampler returned)"],
     "stub": ["numpy.random.* and random_choice (tape)"],
 }
 ASSUMPTIONS = [
@@ -46,6 +47,12 @@ def prepare(tier):
 
 
 def gen_config(rng, tier, index=0):
+    if rng.random() < 0.04:
+        cfg = wl_cli.gen_assemble_config(rng, tier)
+        cfg["workload"] = "cli"
+        cfg["mcmc_steps"] = rng.choice([8, 12, 20])
+        cfg["mcmc_burn"] = rng.choice([0, 2, 5])
+        return cfg
     w = rng.choice(["assemble", "assemble", "walk", "call", "call", "pedigree", "awalk"])
     if w == "awalk":
         long = rng.random() < 0.12
@@ -175,8 +182,64 @@ def execute(ctx):
         run_allele_walk(ctx)
     elif w == "call":
         check_call(ctx)
+    elif w == "cli":
+        check_cli(ctx)
     else:
         check_ped(ctx)
+
+
+def check_cli(ctx):
+    """`mchap assemble` end to end: the GT / GPM / SPM it prints for every sample are the functionals of the trace its own
+    sampler returned, after removing exactly --mcmc-burn steps, with haplotypes spelled as sequences over the locus' SNVs."""
+    cfg = ctx.config
+    burn = cfg["mcmc_burn"]
+    fits = []
+    ds, recs, parsed = wl_cli.run_assemble_cli(ctx, fits.append)
+    by = {(r["locus"], r["sample"]): r for r in fits}
+    support_of = lambda k: tuple(sorted(set(k)))
+    for vr in parsed:
+        seqs = [vr["ref"]] + vr["alts"]
+        for s in ds["samples"]:
+            rec = by[(vr["id"], s)]
+            G = rec["trace"]
+            if G.shape[1] != cfg["mcmc_steps"] or G.shape[0] != cfg["mcmc_chains"]:
+                fail(ctx, "trace_accounting", "mchap assemble trace of shape %r for %d chains x %d steps" % (G.shape, cfg["mcmc_chains"], cfg["mcmc_steps"]))
+            chains = [[ref.hap_key(G[c, i]) for i in range(G.shape[1])] for c in range(G.shape[0])]
+            dist, total = distribution(chains, burn)
+            groups = support_groups(dist, support_of)
+            tot = {k: sum(g.values()) for k, g in groups.items()}
+            sbest = max(tot.values())
+            arg = [k for k, v in tot.items() if close(v, sbest)]
+            if len(arg) > 1:
+                ctx.counters.inc("cli_tie_skip")
+                continue
+            grp = groups[arg[0]]
+            gbest = max(grp.values())
+            garg = [k for k, v in grp.items() if close(v, gbest)]
+            if len(garg) > 1:
+                ctx.counters.inc("cli_tie_skip")
+                continue
+            want_seqs = Counter()
+            for hap in garg[0]:
+                seq = list(rec["refseq"])
+                for off, alleles, a in zip(rec["snv_offsets"], rec["snv_alleles"], hap):
+                    seq[off] = alleles[a]
+                want_seqs["".join(seq)] += 1
+            fld = vr["samples"][s]
+            gt = fld["GT"].replace("|", "/").split("/")
+            got_seqs = Counter(seqs[int(a)] for a in gt if a != ".")
+            where = "locus %s, sample %s, --mcmc-burn %d" % (vr["id"], s, burn)
+            if len(gt) != rec["ploidy"] or any(got_seqs[q] > want_seqs.get(q, 0) for q in got_seqs):
+                fail(ctx, "cli_report", "GT %s spells haplotypes %r; the most frequent genotype of the most frequent support of the retained trace is %r (%s)"
+                     % (fld["GT"], dict(got_seqs), dict(want_seqs), where), kind="cli")
+            for key, want in (("GPM", gbest), ("SPM", sbest)):
+                if abs(float(fld[key]) - want) > 0.00051:
+                    fail(ctx, "cli_report", "%s=%s printed; the retained trace gives %.6f (%s)" % (key, fld[key], want, where), kind="cli")
+            ctx.counters.inc("cli_reports_checked")
+            if "." in gt:
+                ctx.counters.inc("cli_null_alleles")
+            if len(dist) > 1:
+                ctx.key("cli-report", rec["ploidy"], cfg["mcmc_chains"], burn, tuple(sorted(dist.values())))
 
 
 class BurnHistory:
@@ -550,6 +613,8 @@ def sut_exception_is_violation(e, ctx):
 
 def shrink_candidates(cfg, violation):
     w = cfg["workload"]
+    if w == "cli":
+        return wl_cli.shrink_candidates(cfg)
     if w == "awalk":
         out = []
         for k, v in (("chains", 1), ("ploidy", 2), ("n_allele", 2), ("steps", max(2, cfg["steps"] // 2)), ("steps", cfg["steps"] - 1)):
